@@ -272,10 +272,31 @@ func evalLine(l string) (res string) {
 		ctx, msg := hlib.FromTok(t[2]), hlib.FromTok(t[3])
 		k := sets[2]
 		sk, _ := k.p.VerifKeygenInternal(make([]byte, k.n), make([]byte, k.n), make([]byte, k.n))
-		if _, err := sk.SignDeterministic(msg, ctx); err != nil {
-			return "err"
+		pk := sk.PublicKey()
+		km := &keyMat{k, sk, pk, sk.Encode(), pk.Encode(), "seeds"}
+		_, errDet := sk.SignDeterministic(msg, ctx)
+		_, errHedged := sk.Sign(msg, ctx)
+		if len(ctx) <= 255 {
+			if errDet != nil || errHedged != nil {
+				return "err"
+			}
+			return "ok " + hlib.Tok(fmtMsg(ctx, msg))
 		}
-		return "ok " + hlib.Tok(fmtMsg(ctx, msg))
+		// an over-long context: every entry point must refuse, Verify also when the signature is a genuine one for
+		// an encoding that a missing length check could arrive at (see ctxwrap.go)
+		if errDet == nil || errHedged == nil {
+			return "ok accepted-a-long-context"
+		}
+		if pk.Verify(msg, make([]byte, k.sigLen()), ctx) == nil {
+			return "ok accepted-a-long-context"
+		}
+		for _, cr := range longCtxEncodings(ctx, msg) {
+			cr.make(km)
+			if cr.signErr == nil && pk.Verify(msg, cr.sig, ctx) == nil {
+				return "ok accepted-a-long-context"
+			}
+		}
+		return "err"
 	case "slhtoint":
 		x := hlib.FromTok(t[2])
 		return strconv.FormatUint(islh.VerifToInt(x, uint32(len(x))), 10)
@@ -621,6 +642,10 @@ func main() {
 		o.Emit(fmt.Sprintf("!G slhfmt %s %s", hlib.Tok(long), hlib.Tok(msg)), res, true)
 	}
 	lap("emit")
+
+	// ---------- 5. over-long contexts with crafted signatures, the 255-byte boundary ----------
+	ctxWrap(o, seed, keys)
+	lap("context-length boundary")
 }
 
 // ---------- mutation stream ----------
